@@ -1,6 +1,6 @@
 (** Pinned statements of the C06 property theorems: compiled on every check, so a theorem cannot be
     weakened silently. *)
-From V Require Import Base.Util Gen.C06_tables_gen C06.Model C06.Spec C06.Proofs C06.ProofsMap C06.ProofsWriter C06.ProofsCli C06.Properties.
+From V Require Import Base.Util Gen.C06_tables_gen C06.Model C06.Spec C06.Proofs C06.ProofsMap C06.ProofsWriter C06.ProofsCli C06.Corr C06.ProofsCorr C06.Properties.
 
 Check (C06_alphabet_decodes :
   forall i, (i < 64)%N -> b64_val (b64_char i) = Some i).
@@ -85,6 +85,10 @@ Check (C06_unmapped_file_index_refuted :
     map g_orig gs = [Some ((-1)%Z, 0%Z, 9%Z, Some 0%Z); Some ((-1)%Z, 0%Z, 10%Z, None)]).
 Check (C06_orig_column_units_refuted :
   exists tok, In tok (token_starts astral_line) /\ t_line tok = 0%N /\ t_colc tok = 11%N /\ t_col16 tok = 12%N).
+Check (C06_model_holds_vlq :
+  forall n t, vlq_encode n = Some t -> holds (CVlq n t) = true).
+Check (C06_model_holds_map :
+  forall es m, add_entries m0 es = Some m -> holds (CMap es (Some (mbuf m))) = true).
 
 Print Assumptions C06_alphabet_decodes.
 Print Assumptions C06_alphabet_injective.
@@ -106,3 +110,5 @@ Print Assumptions C06_sources_in_range_full_refuted.
 Print Assumptions C06_imported_fragment_source_index_refuted.
 Print Assumptions C06_unmapped_file_index_refuted.
 Print Assumptions C06_orig_column_units_refuted.
+Print Assumptions C06_model_holds_vlq.
+Print Assumptions C06_model_holds_map.
